@@ -211,6 +211,22 @@ static void run_type(uint64_t seed)
             cmpc("mul_assign", t, [](CL x, CL y, CL, ld) { return x * y; }, 8, 0, none);
             t = va; t /= vb;
             cmpc("div_assign", t, [](CL x, CL y, CL, ld) { return y == CL(0) ? CL(NAN, NAN) : x / y; }, 8, 0, none);
+            // aliased operands: the right-hand side is the object being assigned to (z *= z is how ipow squares), and the
+            // operator forms with both operands the same object
+            t = va; t += t;
+            cmpc("add_assign_self", t, [](CL x, CL, CL, ld) { return x + x; }, 8, 0, none);
+            t = va; t -= t;
+            cmpc("sub_assign_self", t, [](CL x, CL, CL, ld) { return x - x; }, 8, 0, none);
+            t = va; t *= t;
+            cmpc("mul_assign_self", t, [](CL x, CL, CL, ld) { return x * x; }, 8, 0, none);
+            t = va; t /= t;
+            cmpc("div_assign_self", t, [](CL x, CL, CL, ld) { return x == CL(0) ? CL(NAN, NAN) : x / x; }, 8, 0, none);
+            cmpc("mul_same_object", va * va, [](CL x, CL, CL, ld) { return x * x; }, 8, 0, none);
+            if (mk <= 4)
+            { // pow with an integer exponent (square-and-multiply): |n| <= 8, tolerance 32 eps like the other pow form
+                const int n = (int)(it % 17) - 8;
+                cmpc("pow_int_exponent", xs::pow(va, n), [n](CL x, CL, CL, ld) { if (x == CL(0)) return CL(NAN, NAN); CL p(1); for (int i = 0; i < std::abs(n); ++i) p *= x; return n < 0 ? CL(1) / p : p; }, 32, 0, none);
+            }
             t = va; t += vr;
             cmpc("add_assign_real_batch", t, [](CL x, CL, CL, ld r) { return x + r; }, 8, 0, none);
             t = va; t -= vr;
